@@ -230,6 +230,17 @@ def check_key(chk, sh, c_, ks, tier, rng):
         except Exception as e:
             good1 = False
         if good1 is not None:
+            # the same triple as a plain tuple (the constructor is annotated Tuple[float, float, float])
+            try:
+                def fn2():
+                    with patched((sh, {"numpy": proxy1})):
+                        return numpy.asarray(sh.ShearElasticModulusPhononContribution(tuple(e1), key).strain_rotated, dtype=object)
+                sr2 = X.run_single_path(fn2, name="C03:%s:tuple" % ks)
+                good1 = good1 and sr2.shape == (3,) and all(Sym.of(a).same(b) for a, b in zip(sr2, sr1))
+            except SymError:
+                pass
+            except Exception:
+                good1 = False
             chk.obligation("%s:strain_rotated==diag(T^T diag(e) T) for a single strain triple (1-D input)" % ks, "unsat" if good1 else "sat", kind="identity")
             if not good1:
                 try:
@@ -238,7 +249,16 @@ def check_key(chk, sh, c_, ks, tier, rng):
                     Tf = numpy.real(numpy.asarray(o2.transformation_matrix))
                     got = numpy.real(numpy.asarray(o2.strain_rotated))
                     wantf = numpy.einsum("ia,i,ia->a", Tf, ef, Tf)
-                    if got.shape != (3,) or numpy.abs(got - wantf).max() > 1e-12:
+                    try:
+                        got_t = numpy.real(numpy.asarray(sh.ShearElasticModulusPhononContribution((0.2, 0.3, 0.5), key).strain_rotated))
+                        tuple_ok = got_t.shape == (3,) and numpy.abs(got_t - wantf).max() < 1e-12
+                    except Exception as e_t:
+                        chk.violation("strain-triple-as-tuple", "ShearElasticModulusPhononContribution((0.2, 0.3, 0.5), %s).strain_rotated raises %s: %s -- the strain "
+                                      "triple given as a plain tuple, as the constructor's annotation says" % (ks, type(e_t).__name__, e_t), dict(key=ks))
+                        tuple_ok = True
+                    if tuple_ok and got.shape == (3,) and numpy.abs(got - wantf).max() <= 1e-12:
+                        pass
+                    elif got.shape != (3,) or numpy.abs(got - wantf).max() > 1e-12:
                         chk.violation("%s:strain-rotated-1d" % ks, "strain_rotated of %s for the single strain triple [0.2, 0.3, 0.5] is %s, diag(T^T diag(e) T) is %s"
                                       % (ks, got.tolist(), wantf.tolist()), dict(key=ks))
                     else:
